@@ -48,6 +48,9 @@ def build_cell(c, refs, route):
         return Cell(tb, list(refs), lib_type(c['t']))
     if route == 'ctor_plain':
         return Cell(bitarray(bits), list(refs), lib_type(c['t']))
+    if route == 'ctor_plain_le':
+        # the same bit sequence held by a bit array with the other in-memory bit order (bitarray's endian='little'): still the same bits
+        return Cell(bitarray(bits.tolist(), endian='little'), list(refs), lib_type(c['t']))
     raise ValueError(route)
 
 
